@@ -80,6 +80,13 @@ def boom(detector, a=0, b=0, tag="", v=None):
         if p["step"] != step or p.get("a", a) != a or p.get("b", b) != b:
             return
     PLAN["_hit"] = PLAN.get("_hit", 0) + 1
+    if p.get("own_seed"):
+        # the model fails inside its own seeded block (as every stochastic model with a `seed` argument would)
+        from pyxel.util import set_random_seed
+
+        with set_random_seed(11):
+            np.random.random()
+            raise _make_exc(p["exc"], p["msg"])
     raise _make_exc(p["exc"], p["msg"])
 
 
@@ -200,6 +207,24 @@ def enumerate_cases(tier, seed):
                         cases.append({"mode": ymode, "entry": "yaml", "omode": "product", "pipe": "p2", "steps": 2,
                                       "site": site, "exc": exc})
                     first = False
+    # seeded runs (pipeline_seed set: the run is wrapped in the seeding context) and a model failing inside its own
+    # seeded block: the error must come out of those contexts unchanged
+    for pseed in ("pipeline", "model"):
+        for step in range(2):
+            for g, model in PIPES["p2"]:
+                for exc in ("ValueError", "KeyError", "ProbeError"):
+                    cases.append({"mode": "exposure", "pipe": "p2", "steps": 2, "pseed": pseed,
+                                  "site": {"name": model, "step": step}, "exc": exc})
+        for omode in ("product", "sequential"):
+            for run in _runs(omode):
+                for g, model in PIPES["p2"]:
+                    cases.append({"mode": "obs_seq", "omode": omode, "pipe": "p2", "steps": 1, "pseed": pseed,
+                                  "site": {"name": model, "step": 0, "a": run["a"], "b": run["b"]}, "exc": "ValueError"})
+        for run in _runs("product3"):
+            for g, model in PIPES["p2"]:
+                cases.append({"mode": "obs_dask", "sched": "synchronous", "omode": "product3", "pipe": "p2", "steps": 1,
+                              "pseed": pseed, "site": {"name": model, "step": 0, "a": run["a"], "b": run["b"]},
+                              "exc": "ValueError"})
     # the legacy entry points pyxel.exposure_mode / pyxel.observation_mode (deprecated, still public, own implementations)
     for lmode, omodes in (("exposure", (None,)), ("obs_seq", ("product", "sequential", "custom"))):
         for omode in omodes:
@@ -349,7 +374,8 @@ def run_case(case):
     probes.reset()
     LOG.clear()
     PLAN.clear()
-    PLAN.update(dict(site, exc=case["exc"], msg=msg, slow_after=bool(case.get("slow_after"))))
+    PLAN.update(dict(site, exc=case["exc"], msg=msg, slow_after=bool(case.get("slow_after")),
+                     own_seed=(case.get("pseed") == "model")))
     raised = None
     result = None
     phase = "start"
@@ -370,15 +396,21 @@ def run_case(case):
                         obs = build_observation(case["omode"], case["pipe"], case["steps"], False, tmp)
                         result = pyxel.observation_mode(obs, det, pipe)
             elif mode == "exposure":
-                result = pyxel.run_mode(mk.exposure([float(i + 1) for i in range(case["steps"])]), det, pipe,
-                                        with_inherited_coords=True, debug=bool(case.get("debug")))
+                expo = mk.exposure([float(i + 1) for i in range(case["steps"])])
+                if case.get("pseed") == "pipeline":
+                    expo.pipeline_seed = 7
+                result = pyxel.run_mode(expo, det, pipe, with_inherited_coords=True, debug=bool(case.get("debug")))
             elif mode == "obs_seq":
                 obs = build_observation(case["omode"], case["pipe"], case["steps"], False, tmp)
+                if case.get("pseed") == "pipeline":
+                    obs.pipeline_seed = 7
                 result = pyxel.run_mode(obs, det, pipe, with_inherited_coords=True)
             elif mode == "obs_dask":
                 import dask
 
                 obs = build_observation(case["omode"], case["pipe"], case["steps"], True, tmp)
+                if case.get("pseed") == "pipeline":
+                    obs.pipeline_seed = 7
                 if case["sched"] == "controlled":
                     result, phase = _run_controlled(obs, det, pipe, case["order"])
                 else:
@@ -455,7 +487,7 @@ def run_case(case):
         if idx is not None and len(log) > idx + 1:
             bad("continued", f"{len(log) - idx - 1} model call(s) executed after the failing one: {log[idx + 1:][:4]}")
     return {"viol": viol, "sig": cfgx.sig([mode, case.get("entry"), case.get("omode"), case.get("sched"), case.get("order"), site, case["exc"],
-                                           case.get("debug"), case.get("vector")]),
+                                           case.get("debug"), case.get("vector"), case.get("pseed")]),
             "nontrivial": True, "n": 1,
             "outcome": {"raised": None if raised is None else type(raised).__name__, "phase": phase, "calls": len(log)}}
 
